@@ -259,7 +259,7 @@ func genCallback(t *rapid.T, p *prog, plain string) (pre, body string) {
 		return "", "inner := []int{3, 1, 2}\nsort.Slice(inner, func(a int, b int) bool {\nreturn inner[a] < inner[b]\n})\n" + plain
 	case 5:
 		p.feat("callback-try")
-		return "", "try {\n" + genFailure(t, "cbtry") + "\n} catch (e) {\n}\n" + plain
+		return "", "try {\n" + genFailure(t, "cbtry") + "\n} catch (e) {\n_ = e\n}\n" + plain
 	default:
 		p.feat("callback-goroutine")
 		return "", "var cwg sync.WaitGroup\ncwg.Add(1)\ngo func() {\ncwg.Done()\n}()\ncwg.Wait()\n" + plain
@@ -292,7 +292,7 @@ func genAction(t *rapid.T, p *prog) {
 		p.feat("sort.Search")
 		arr := p.name("arr")
 		pre, body := genCallback(t, p, "return "+arr+"[i] >= 7")
-		st := fmt.Sprintf("%s := []int{1, 3, 5, 7, 9, 11, 13}\n%s\nidx, serr := sort.Search(len(%s), func(i int) bool {\n%s\n})\nfmt.Println(idx, serr)", arr, pre, arr, body)
+		st := fmt.Sprintf("%s := []int{1, 3, 5, 7, 9, 11, 13}\n%s\nidx%s, serr%s := sort.Search(len(%s), func(i int) bool {\n%s\n})\nfmt.Println(idx%s, serr%s)", arr, pre, arr, arr, arr, body, arr, arr)
 		p.body = append(p.body, maybeTry(t, p, st))
 	case 3: // fmt with an Ego String() method
 		p.feat("fmt-String-method")
@@ -304,7 +304,7 @@ func genAction(t *rapid.T, p *prog) {
 		}
 		p.decls = append(p.decls, fmt.Sprintf("type %s struct {\nn int\n}\nfunc (v %s) String() string {\n%s\n}", ty, ty, meth))
 		st := rapid.SampledFrom([]string{
-			"fmt.Println(%s{n: 1})", "fmt.Println(fmt.Sprintf(\"%%v %%s\", %s{n: 2}, \"x\"))", "xs := []any{%s{n: 3}}\nfmt.Println(xs)",
+			"fmt.Println(%s{n: 1})", "fmt.Println(fmt.Sprintf(\"%%v %%s\", %s{n: 2}, \"x\"))", "fmt.Println([]any{%s{n: 3}})",
 		}).Draw(t, "fmtform")
 		p.body = append(p.body, maybeTry(t, p, fmt.Sprintf(st, ty)))
 	case 4, 5: // goroutines that all finish before main goes on
@@ -314,14 +314,15 @@ func genAction(t *rapid.T, p *prog) {
 		work := rapid.SampledFrom([]string{
 			"x := id * 2\n_ = x",
 			"s := []int{3, 2, 1}\nsort.Slice(s, func(a int, b int) bool {\nreturn s[a] < s[b]\n})",
-			"defer func() {\nrecover()\n}()\npanic(\"in goroutine, recovered\")",
-			"try {\nzz := 0\n_ = 1 / zz\n} catch (e) {\n}",
-			"time.Sleep(\"1ms\")",
+			"func() {\ndefer func() {\nrecover()\n}()\npanic(\"in goroutine, recovered\")\n}()",
+			"try {\nzz := 0\n_ = 1 / zz\n} catch (e) {\n_ = e\n}",
+			"sd, _ := time.ParseDuration(\"1ms\")\ntime.Sleep(sd)",
 			"var iwg sync.WaitGroup\niwg.Add(1)\ngo func() {\niwg.Done()\n}()\niwg.Wait()",
 		}).Draw(t, "work")
 		if strings.Contains(work, "sort.Slice") {
 			p.feat("sort.Slice")
 		}
+		work = "_ = id\n" + work
 		switch rapid.IntRange(0, 3).Draw(t, "gostyle") {
 		case 0: // named worker, WaitGroup by pointer
 			w := p.name("worker")
@@ -335,7 +336,7 @@ func genAction(t *rapid.T, p *prog) {
 			p.body = append(p.body, fmt.Sprintf("%s := make(chan, %d)\nfor gi := 0; gi < %d; gi++ {\ngo func(id int) {\n%s\n%s <- id\n}(gi)\n}\nfor gi := 0; gi < %d; gi++ {\nv := <-%s\n_ = v\n}", ch, n, n, work, ch, n, ch))
 		default: // a goroutine that fails after it has signalled
 			p.feat("goroutine-error")
-			p.body = append(p.body, fmt.Sprintf("var %s sync.WaitGroup\n%s.Add(1)\ngo func() {\n%s.Done()\n%s\n}()\n%s.Wait()\ntime.Sleep(\"2ms\")", wg, wg, wg, genFailure(t, "gofail"), wg))
+			p.body = append(p.body, fmt.Sprintf("var %s sync.WaitGroup\n%s.Add(1)\ngo func() {\n%s.Done()\n%s\n}()\n%s.Wait()", wg, wg, wg, genFailure(t, "gofail"), wg))
 		}
 	case 6: // defer / recover / nested calls
 		p.feat("defer-recover")
@@ -345,16 +346,19 @@ func genAction(t *rapid.T, p *prog) {
 	case 7: // time
 		p.feat("time")
 		p.body = append(p.body, rapid.SampledFrom([]string{
-			"time.Sleep(\"1ms\")", "t0 := time.Now()\ntime.Sleep(\"1ms\")\nfmt.Println(time.Since(t0).String() != \"\")", "d, _ := time.ParseDuration(\"1ms\")\ntime.Sleep(d)",
+			"d%[1]d, _ := time.ParseDuration(\"1ms\")\ntime.Sleep(d%[1]d)", "t%[1]d := time.Now()\nd%[1]d, _ := time.ParseDuration(\"1ms\")\ntime.Sleep(d%[1]d)\nfmt.Println(time.Since(t%[1]d).String() != \"\")",
 		}).Draw(t, "timeform"))
+		p.n++
+		p.body[len(p.body)-1] = fmt.Sprintf(p.body[len(p.body)-1], p.n)
 	case 8: // tables.Find with an Ego predicate
 		p.feat("tables.Find")
 		tb := p.name("tb")
 		pre, body := genCallback(t, p, "return age > \"40\"")
-		st := fmt.Sprintf("%s := tables.New(\"Name\", \"Age\")\n%s.AddRow(\"Tom\", 55)\n%s.AddRow(\"Bob\", 35)\n%s.AddRow(\"Ann\", 41)\n%s\nrows := %s.Find(func(name string, age string) bool {\n%s\n})\nfmt.Println(rows)", tb, tb, tb, tb, pre, tb, body)
+		st := fmt.Sprintf("%s := tables.New(\"Name\", \"Age\")\n%s.AddRow(\"Tom\", 55)\n%s.AddRow(\"Bob\", 35)\n%s.AddRow(\"Ann\", 41)\n%s\nrows%s := %s.Find(func(name string, age string) bool {\n_ = name\n%s\n})\nfmt.Println(rows%s)", tb, tb, tb, tb, pre, tb, tb, body, tb)
 		p.body = append(p.body, maybeTry(t, p, st))
 	default: // plain computation
-		p.body = append(p.body, "acc := 0\nfor ci := 0; ci < 50; ci++ {\nacc = acc + ci\n}\nfmt.Println(acc)")
+		acc := p.name("acc")
+		p.body = append(p.body, fmt.Sprintf("%s := 0\nfor ci := 0; ci < 50; ci++ {\n%s = %s + ci\n}\nfmt.Println(%s)", acc, acc, acc, acc))
 	}
 }
 
